@@ -583,3 +583,16 @@ def reachable_without_edges(fn, target, cut, start=0):
 
 def arg_locals_of_type(fn, needle):
     return [i for i in range(1, fn.r['argc'] + 1) if needle in fn.local_ty(i)]
+
+
+def ret_operands(fn, ok_only=True):
+    """operands from which the function's return value is built (Ok/Some payloads, or direct call results)"""
+    ops = []
+    for ex in (fn.ok_exits() if ok_only else fn.ret_assignments()):
+        if 'call' in ex:
+            ops += ex['call'].args
+        elif ex['kind'] == 'ok':
+            ops += ex['rv']['ops']
+        else:
+            ops += rv_operands(ex['rv'])
+    return ops
